@@ -145,8 +145,7 @@ def run_property(prop: str, mod, functions: list[str], limit: int, seed: int):
         try:
             repo = model.Repo(model.REPO_ROOT, overrides=overrides, share=base)
             ctx = report.Ctx(prop, "thorough", seed, repo)
-            mod.run(ctx)
-            refmodels.check(ctx)
+            report.run_rules(ctx, mod)
             failing = [o for o in ctx.obligations if not o["ok"] and not any(report.matches(e, o) for e in known)]
             outcome = "fired" if failing else "survived"
         except AnalysisError:
@@ -191,8 +190,7 @@ def _worker(args):
         try:
             repo = model.Repo(model.REPO_ROOT, overrides=overrides, share=base)
             ctx = report.Ctx(prop, "thorough", 0, repo)
-            mod.run(ctx)
-            refmodels.check(ctx)
+            report.run_rules(ctx, mod)
             failing = [o for o in ctx.obligations if not o["ok"] and not any(report.matches(e, o) for e in known)]
             if failing:
                 outcome = "fired"
